@@ -18,7 +18,7 @@ PROP = "C14"
 TECHNIQUE = "reference-model runtime monitor (R-scope interpreter + independent path resolver) over generated binding programs"
 RULE = (
     "scope programs: random nestings (depth <= 3) of assign, capture, for, tablerow, with, include (keyword args, bound value with/without "
-    "alias, partial assigning names), increment, decrement and probes {{ name }} over the names {a,b,c,now}, with render arguments, front "
+    "alias, partial assigning names), increment, decrement and probes {{ name }} over the names {a,b,c,now} (a probe answered by the built-in now is matched by shape, so its place in the lookup order - after every data layer, before the counters - is judged), with render arguments, front "
     "matter, template globals and environment globals populated independently per name; path cases: dotted, bracketed, quoted, negative-index "
     "and nested-variable paths of length 1..4 with size/first/last over nested data under string_first_and_last / string_sequences flags. "
     "Non-trivial = program with >= 2 binding layers for a probed name, or a path of length >= 2; distinct by source+data."
@@ -35,6 +35,7 @@ REQUIRED = [
     ("liquid/utils/chain_map.py", "ReadOnlyChainMap.__getitem__"),
 ]
 
+MIN_COUNTERS = {"builtin_now_probes": 20}
 NAMES = ["a", "b", "c", "now"]
 
 # ------------------------------------------------------------------ program -> source
@@ -81,6 +82,16 @@ def src_of(ops: list, partials: dict[str, str]) -> str:
 # ------------------------------------------------------------------ R-scope
 
 UNSPEC = object()
+NOW_MARK = "\x01NOW\x01"
+NOW_RE = r"\d{4}-\d\d-\d\d \d\d:\d\d:\d\d(?:\.\d+)?"
+
+
+class _Now:
+    def __str__(self) -> str:
+        return NOW_MARK
+
+
+NOW = _Now()
 
 
 class RScope:
@@ -90,6 +101,7 @@ class RScope:
         self.counters: dict[str, int] = {}
         self.stack: list[dict[str, Any]] = []
         self.unspec = False
+        self.saw_builtin = False
 
     def lookup(self, name: str) -> Any:
         for ns in reversed(self.stack):
@@ -99,8 +111,8 @@ class RScope:
             if name in ns:
                 return ns[name]
         if name in ("now", "today"):
-            self.unspec = True  # the current time
-            return ""
+            self.saw_builtin = True  # the current time: its text is matched by shape, its *position* in the lookup order is judged
+            return NOW
         if name in self.counters:
             return self.counters[name]
         return ""
@@ -308,7 +320,14 @@ def judge(ctx: core.Ctx, case: dict[str, Any]) -> None:
             ctx.evaluations += 1
             ctx.violation(f"scope:raises-{o.err_class}", f"{src!r:.300} raised {o.err_class}: {drv.safe_str(o.exc)[:80]}")
             return
-        if o.value != exp:
+        if m.saw_builtin and NOW_MARK in exp:
+            import re as _re
+
+            ctx.count("builtin_now_probes")
+            same = _re.fullmatch(_re.escape(exp).replace(_re.escape(NOW_MARK), NOW_RE), o.value, _re.DOTALL) is not None
+        else:
+            same = o.value == exp
+        if not same:
             ctx.evaluations += 1
             ctx.violation("scope:" + classify_scope(case, o.value, exp), f"{src!r:.400} (partials {partials!r:.200}) args={case['args']} matter={case['matter']} tglobals={case['tglobals']} eglobals={case['eglobals']} rendered {o.value!r}, R-scope expects {exp!r}", {"source": src, "partials": partials})
             return
